@@ -8,6 +8,7 @@ import (
 	"sort"
 	"strings"
 	"sync"
+	syncatomic "sync/atomic"
 	"time"
 
 	"github.com/projecteru2/core/lock"
@@ -44,6 +45,17 @@ func (s *Store) NodeOf(id string) string {
 	s.mu.Lock()
 	defer s.mu.Unlock()
 	return s.wn[id]
+}
+
+// atomicWrite makes a recorded WRITE atomic with respect to the caller's cancellation: a call that
+// arrives with a finished context fails without reaching the store, a call that has started runs to
+// completion (the outcome of an etcd write whose context ends while it is in flight is otherwise
+// unknown: the client reports an error although the server may still apply it).
+func atomicWrite(ctx context.Context) (context.Context, error) {
+	if err := ctx.Err(); err != nil {
+		return ctx, err
+	}
+	return context.WithoutCancel(ctx), nil
 }
 
 func wlNode(w *types.Workload) (node, id string) {
@@ -90,6 +102,11 @@ func (s *Store) AddNode(ctx context.Context, opts *types.AddNodeOptions) (*types
 	if err != nil {
 		return nil, err
 	}
+	ctx, cerr := atomicWrite(ctx)
+	if cerr != nil {
+		s.rec.done(idx, cerr)
+		return nil, cerr
+	}
 	n, err := s.Store.AddNode(ctx, opts)
 	s.rec.done(idx, err)
 	return n, err
@@ -103,6 +120,11 @@ func (s *Store) RemoveNode(ctx context.Context, node *types.Node) error {
 	idx, err := s.rec.enter("storeRemoveNode", name, "", "")
 	if err != nil {
 		return err
+	}
+	ctx, cerr := atomicWrite(ctx)
+	if cerr != nil {
+		s.rec.done(idx, cerr)
+		return cerr
 	}
 	err = s.Store.RemoveNode(ctx, node)
 	s.rec.done(idx, err)
@@ -156,6 +178,11 @@ func (s *Store) UpdateNodes(ctx context.Context, nodes ...*types.Node) error {
 	if err != nil {
 		return err
 	}
+	ctx, cerr := atomicWrite(ctx)
+	if cerr != nil {
+		s.rec.done(idx, cerr)
+		return cerr
+	}
 	err = s.Store.UpdateNodes(ctx, nodes...)
 	s.rec.done(idx, err)
 	return err
@@ -196,6 +223,11 @@ func (s *Store) AddWorkload(ctx context.Context, w *types.Workload, p *types.Pro
 	if err != nil {
 		return err
 	}
+	ctx, cerr := atomicWrite(ctx)
+	if cerr != nil {
+		s.rec.done(idx, cerr)
+		return cerr
+	}
 	err = s.Store.AddWorkload(ctx, w, p)
 	if err == nil {
 		s.learn(w)
@@ -210,6 +242,11 @@ func (s *Store) UpdateWorkload(ctx context.Context, w *types.Workload) error {
 	if err != nil {
 		return err
 	}
+	ctx, cerr := atomicWrite(ctx)
+	if cerr != nil {
+		s.rec.done(idx, cerr)
+		return cerr
+	}
 	err = s.Store.UpdateWorkload(ctx, w)
 	s.rec.done(idx, err)
 	return err
@@ -220,6 +257,11 @@ func (s *Store) RemoveWorkload(ctx context.Context, w *types.Workload) error {
 	idx, err := s.rec.enter("storeRemoveWorkload", node, id, "")
 	if err != nil {
 		return err
+	}
+	ctx, cerr := atomicWrite(ctx)
+	if cerr != nil {
+		s.rec.done(idx, cerr)
+		return cerr
 	}
 	err = s.Store.RemoveWorkload(ctx, w)
 	s.rec.done(idx, err)
@@ -322,6 +364,11 @@ func (s *Store) CreateProcessing(ctx context.Context, p *types.Processing, count
 	if err != nil {
 		return err
 	}
+	ctx, cerr := atomicWrite(ctx)
+	if cerr != nil {
+		s.rec.done(idx, cerr)
+		return cerr
+	}
 	err = s.Store.CreateProcessing(ctx, p, count)
 	s.rec.done(idx, err)
 	return err
@@ -331,6 +378,11 @@ func (s *Store) DeleteProcessing(ctx context.Context, p *types.Processing) error
 	idx, err := s.rec.enter("storeDeleteProcessing", p.Nodename, "", "")
 	if err != nil {
 		return err
+	}
+	ctx, cerr := atomicWrite(ctx)
+	if cerr != nil {
+		s.rec.done(idx, cerr)
+		return cerr
 	}
 	err = s.Store.DeleteProcessing(ctx, p)
 	s.rec.done(idx, err)
@@ -343,24 +395,29 @@ func (s *Store) CreateLock(key string, ttl time.Duration) (lock.DistributedLock,
 	if err != nil || !s.rec.lockEvts {
 		return l, err
 	}
-	return &recLock{DistributedLock: l, key: key, rec: s.rec}, nil
+	return &recLock{DistributedLock: l, key: key, rec: s.rec, id: fmt.Sprint(lockSeq.Add(1))}, nil
 }
 
+var lockSeq syncatomic.Int64
+
+// recLock: the events of one lock object carry its id in Arg (a failed Lock is followed by an Unlock
+// of the same object, which must not be mistaken for the release of another holder's lock)
 type recLock struct {
 	lock.DistributedLock
 	key string
 	rec *Recorder
+	id  string
 }
 
 func (l *recLock) Lock(ctx context.Context) (context.Context, error) {
-	idx, err := l.rec.enter("lock", l.key, "", "")
+	idx, err := l.rec.enter("lock", l.key, "", l.id)
 	if err != nil {
 		return ctx, err
 	}
 	c, err := l.DistributedLock.Lock(ctx)
 	l.rec.done(idx, err)
 	if err == nil { // "locked": the moment the lock is actually held (a "lock" event marks the request)
-		if i, e := l.rec.enter("locked", l.key, "", ""); e == nil {
+		if i, e := l.rec.enter("locked", l.key, "", l.id); e == nil {
 			l.rec.done(i, nil)
 		}
 	}
@@ -368,7 +425,7 @@ func (l *recLock) Lock(ctx context.Context) (context.Context, error) {
 }
 
 func (l *recLock) TryLock(ctx context.Context) (context.Context, error) {
-	idx, err := l.rec.enter("trylock", l.key, "", "")
+	idx, err := l.rec.enter("trylock", l.key, "", l.id)
 	if err != nil {
 		return ctx, err
 	}
@@ -378,7 +435,7 @@ func (l *recLock) TryLock(ctx context.Context) (context.Context, error) {
 }
 
 func (l *recLock) Unlock(ctx context.Context) error {
-	idx, err := l.rec.enter("unlock", l.key, "", "")
+	idx, err := l.rec.enter("unlock", l.key, "", l.id)
 	if err != nil {
 		return err
 	}
